@@ -497,7 +497,7 @@ namespace c16b
       "BurgersAssembler matrix in 6 parameter configurations (nu, nu with deformation tensor, theta, beta, Frechet beta, all together) with a polynomial "
       "convection field, BurgersAssembler vector == A*primal, scalar matrix, and the three Burgers assembly jobs. Non-trivial: every case.";
     spec.bounds_quick = "this binary: tria/quad (c16_blocked) resp. tetra/hexa (c16_blocked3d); pairs L2/L1, L2/P1dc, CR/P0; mesh family of c16_core.hpp";
-    spec.bounds_thorough = "larger mesh family (more numberings, finer unit cubes)";
+    spec.bounds_thorough = "3D: larger mesh family (more numberings, finer unit cubes); 2D uses the full family in both tiers";
     spec.assumptions = {
       "deformation tensor diffusion is checked against nu*int (grad u + grad u^T):grad w, the convention implemented consistently by BurgersAssembler, the Burgers jobs, "
       "DuDvOperator(Blocked) and the voxel assemblers; the class documentation of BurgersAssembler states 1/4*int (grad+grad^T)u:(grad+grad^T)w, which is half of it (documentation finding)",
